@@ -3,7 +3,7 @@
    Kept separate from the Flatten tables so that proofs about the byte level do
    not depend on Gen/Src_flatten.v. *)
 From PP Require Export Base.Bytes.
-From PP Require Import Fold.FoldDefs.
+From PP Require Import Fold.Utf8Scan.
 Local Open Scope Z_scope.
 
 (* ---------- UTF-8 (well-formed input only; the scanner is the one of Fold/FoldDefs.v) ---------- *)
